@@ -169,10 +169,13 @@ func VerifC02_UnzipStaysInside() {
 		maxLen = 4
 	}
 	var entries []vEntry
+	nested := verif.Bool("nested")
+	if nested {
+		maxLen = 2 // the product with the nested archive's two names stays within the path budget
+	}
 	first := vNameFromAlphabet("n1", maxLen, alphabet)
 	verif.Assume(first != "")
 	entries = append(entries, vEntry{name: first, content: []byte("x"), declared: -1})
-	nested := verif.Bool("nested")
 	if nested {
 		inner := vNameFromAlphabet("n2", 2, alphabet)
 		verif.Assume(inner != "")
